@@ -426,6 +426,11 @@ def oracle_C13(result):
             rt = out["k"] == "Err" and out["e"] == "RuntimeErr"
             if (st not in ALLOWED[op["op"]]) != rt:
                 bad.append((f"C13:guard:{op['op']}:{st}", f"step {i}: {op['op']} in state {st} -> {out}", i))
+        if op["op"] == "GetEnd" and out["k"] == "Err" and out["e"] == "RuntimeErr" and life[i][op["c"]] in ("open", "closing"):
+            # a lookup that was allowed to begin, and had to wait, is not refused afterwards while the operation
+            # is still allowed (during teardown lookups are)
+            bad.append((f"C13:guard:GetResource:{life[i][op['c']]}", f"step {i}: the pending get_resource() of context "
+                        f"{op['c']} (state {life[i][op['c']]}) ended in RuntimeError", i))
             if rt and canon_probe(prev[op["c"]]) != canon_probe(probe[op["c"]]):
                 bad.append(("C13:rejected-op-changed-state", f"step {i}: rejected {op['op']} changed the context", i))
         after = list(life[i + 1]) if i + 1 < len(life) else None
